@@ -12,6 +12,7 @@
 -/
 import RaftVerif.Proofs.Codec
 import RaftVerif.Proofs.CodecCfg
+import RaftVerif.Proofs.Meta
 set_option linter.unusedSimpArgs false
 namespace Raft.Codec
 open Raft.Bytes
@@ -197,6 +198,20 @@ example : decodeCfg (encodeFields (cfgFields exCfg)) = some exCfg := by
     rcases h with rfl | rfl <;> exact ⟨by decide, by decide⟩
   · intro kv h; simp only [exCfg, List.mem_cons, List.mem_nil_iff, or_false] at h
     rcases h with rfl | rfl <;> decide
+
+/-- The snapshot metadata file (`metadata.json`: decimal numbers, base64 configuration, `null` for
+    a nil slice): what is written is what is read. -/
+theorem C19_snapshot_metadata_roundtrip (m : Meta.SnapMeta) (h : m.Valid) :
+    Meta.decodeMeta (Meta.encodeMeta m) = some m := Meta.decodeMeta_encodeMeta m h
+
+example : Meta.decodeMeta (Meta.encodeMeta ⟨2 ^ 64 - 1, 0, some [0, 255, 16]⟩) = some ⟨2 ^ 64 - 1, 0, some [0, 255, 16]⟩ := by
+  apply C19_snapshot_metadata_roundtrip
+  refine ⟨by decide, by decide, ?_⟩
+  intro c hc b hb
+  simp only [Option.some.injEq] at hc
+  subst hc
+  simp only [List.mem_cons, List.mem_nil_iff, or_false] at hb
+  rcases hb with rfl | rfl | rfl <;> decide
 
 /-! Non-vacuity: a configuration entry with maximal index survives. -/
 example : decodeLogBody (encodeLogBody { index := 2 ^ 64 - 1, term := 7, offset := 4, data := [1, 2, 255], kind := 2 }) =
